@@ -127,6 +127,62 @@ def grouping(R, rep):
                    f"{lb.short} does not select lots by date equality", lb.loc(), key=f"R3:{lb.short}:date-select")
 
 
+SLICE = "[cgt_core::models::GbpTransaction]"
+_PASS_THROUGH = ("iter", "into_iter", "filter", "filter_map", "map", "copied", "cloned", "flat_map", "flatten", "by_ref")
+
+
+def same_day_total(R, rep):
+    """R3 (fill splitting): the scan that totals a date's disposals for the same-day reservation must add up EVERY matching
+    line — `…filter(..).map(..).sum()` or a loop whose only exit is the exhaustion of the iterator — never the first or last"""
+    F = R.F
+    from panics import reachable
+    reach, _ = reachable(F, [R.require("cascade").id])
+    n = 0
+    for rid in sorted(reach):
+        b = F.bodies[rid]
+        if not P.user_written(F, b) or b.kind != "fn" or "Decimal" not in b.ret or b.ret.startswith("core::"):
+            continue
+        if not any(SLICE in b.local_ty(k + 1) for k in range(b.argc)) or not any("NaiveDate" in b.local_ty(k + 1) for k in range(b.argc)):
+            continue
+        sl = [k + 1 for k in range(b.argc) if SLICE in b.local_ty(k + 1)]
+        iterates = any(parse_callee(t["callee"])[2] in ("iter", "into_iter") and (root_of_operand(b, t["args"][0]) or (None,))[0] in sl
+                       for _, t in b.calls())
+        if not iterates:
+            continue
+        n += 1
+        tb = R.terms(b, 0)
+        ret = tb.local(0)
+        ok = False
+        why = f"the same-day total is {show(ret)[:90]}"
+        x = ret
+        if isinstance(x, tuple) and x and x[0] == "call" and parse_callee(x[1])[2] in ("sum",):
+            y = x[2][0]
+            while isinstance(y, tuple) and y and y[0] == "call" and parse_callee(y[1])[2] in _PASS_THROUGH:
+                y = y[2][0]
+            ok = isinstance(y, tuple) and y and y[0] == "param"
+            why = "the same-day total sums every matching line of the timeline" if ok else f"sum over {show(y)[:60]}"
+        elif isinstance(x, tuple) and x and x[0] == "var" and b.loops():
+            # loop form: accumulations into the returned variable, loop left only when the iterator is exhausted
+            (h, blks), = b.loops() if len(b.loops()) == 1 else [(None, set())]
+            adds = [i for i, t in b.calls() if is_decimal_arith_assign(t["callee"]) == "AddAssign" and i in blks]
+            exits = {(s, t_) for s in blks for t_ in b.succ(s) if t_ not in blks}
+            only_exhaustion = True
+            for s, t_ in exits:
+                sw = b.term(s)
+                cnd = tb.operand(sw["discr"]) if sw["k"] == "switch" else None
+                if not (isinstance(cnd, tuple) and cnd and cnd[0] == "discr" and isinstance(cnd[1], tuple) and cnd[1][0] == "call"
+                        and parse_callee(cnd[1][1])[2] == "next"):
+                    only_exhaustion = False
+            ok = bool(adds) and only_exhaustion
+            why = "every matching line is added; the loop ends only when the timeline is exhausted" if ok else \
+                "the loop over the timeline can end before every line has been added (early exit) or adds nothing"
+        rep.ob("R3", f"{b.short}:sums-every-line", ok, why if ok else
+               why + ": a day's sale entered as several non-adjacent lines reserves too few shares, so the result depends on how fills are split",
+               b.loc(), key=f"R3:{b.short}:partial-total")
+    if n == 0:
+        rep.unresolved("R3", "same-day-total", "no Decimal-valued scan of the timeline for a given date found below the cascade")
+
+
 def cli_join(R, rep):
     F = R.F
     main = F.bodies.get("cgt_tool::main")
@@ -156,6 +212,7 @@ def run(ctx, rep):
     R = Roles(ctx.F)
     canon(R, rep)
     grouping(R, rep)
+    same_day_total(R, rep)
     cli_join(R, rep)
     # within one date the phases run as separate passes over the day's lines (all buys, all sells, pooling, all splits):
     # with interleaved per-line processing the result would depend on the order of same-day lines (shared with C01-R2)
